@@ -6,6 +6,8 @@ import (
 	"strings"
 
 	"bmvh/common"
+
+	"github.com/BondMachineHQ/BondMachine/pkg/procbuilder"
 )
 
 // Case is one generated BASM source.
@@ -62,19 +64,32 @@ func pick(r *common.Rng, xs []string) string { return xs[r.Intn(len(xs))] }
 
 func genLiteral(r *common.Rng, rsize int) string {
 	max := (uint64(1) << uint(rsize)) - 1
+	var v uint64
 	switch r.Intn(6) {
 	case 0:
-		return "0"
+		v = 0
 	case 1:
-		return "1"
+		v = 1
 	case 2:
-		return strconv.FormatUint(max, 10)
+		v = max
 	case 3:
-		return strconv.FormatUint(max-uint64(r.Intn(3)), 10)
+		v = max - uint64(r.Intn(3))
+	default:
+		v = r.Next() & max
+		if r.Bool() {
+			v &= 15
+		}
 	}
-	v := r.Next() & max
-	if r.Bool() {
-		v &= 15
+	// the unsized integer notations of bmnumbers: decimal, 0x (either case), 0b, 0u, 0d
+	switch r.Intn(12) {
+	case 0:
+		return "0x" + strconv.FormatUint(v, 16)
+	case 1:
+		return "0x" + strings.ToUpper(strconv.FormatUint(v, 16))
+	case 2:
+		return "0b" + strconv.FormatUint(v, 2)
+	case 3:
+		return pick(r, []string{"0u", "0d"}) + strconv.FormatUint(v, 10)
 	}
 	return strconv.FormatUint(v, 10)
 }
@@ -123,7 +138,7 @@ func genSection(r *common.Rng, name string, rsize int, effMode string, secMode s
 			}
 		}
 	}
-	forms := []string{"rset", "movn", "cpy", "movr", "inc", "dec", "clr", "add", "nop", "j", "jz", "out", "out"}
+	forms := []string{"rset", "movn", "cpy", "movr", "inc", "dec", "clr", "add", "mult", "div", "nop", "j", "jz", "out", "out"}
 	if s.nIn > 0 {
 		forms = append(forms, "in", "in")
 	}
@@ -145,8 +160,8 @@ func genSection(r *common.Rng, name string, rsize int, effMode string, secMode s
 			t = "mov " + reg() + ", " + reg()
 		case "inc", "dec", "clr":
 			t = f + " " + reg()
-		case "add":
-			t = "add " + reg() + ", " + reg()
+		case "add", "mult", "div":
+			t = f + " " + reg() + ", " + reg()
 		case "nop":
 			t = pick(r, []string{"nop", "noop"})
 		case "j":
@@ -292,7 +307,7 @@ func genRelaySection(r *common.Rng, name string, rsize int, secMode string, sour
 		add(fmt.Sprintf("mov r%d, i%d", i, i))
 	}
 	if s.nIn == 2 && r.Bool() {
-		add("add r0, r1")
+		add(pick(r, []string{"add", "add", "mult", "div"}) + " r0, r1")
 	}
 	if r.Bool() {
 		add(fmt.Sprintf("inc r%d", s.maxReg))
@@ -310,8 +325,112 @@ type gio struct {
 	index          int
 }
 
+// genTemplCase: 2..3 processors that run ONE templated section, each with its own `cpdef` parameters: an operand given
+// by a parameter (`{{.Params.first}}`), blocks of lines kept only for the processors that have a parameter
+// (`{{if .Params.skip}}` … `{{end}}`, values "1", "yes" and "0": a Go template tests a string for non-emptiness), an
+// operand inside such a block.  Parameters are set on some processors and omitted on others, in any relation to the
+// processors' name order; sometimes one more processor with parameters runs a plain section, or one without runs another.
+func genTemplCase(r *common.Rng) Case {
+	c := Case{Kind: "ok:templated"}
+	rsize := []int{8, 16, 32}[r.Intn(3)]
+	mode := pick(r, []string{"async", "sync"})
+	names := []string{"cpa", "cpb", "cpc", "north", "m2", "zz"}
+	for i := len(names) - 1; i > 0; i-- {
+		j := r.Intn(i + 1)
+		names[i], names[j] = names[j], names[i]
+	}
+	ncp := 2 + r.Intn(2)
+	blockA := pick(r, []string{"skip", "twice", "fast"})
+	blockB := pick(r, []string{"extra", "dst"})
+	plainOp := func() string {
+		return pick(r, []string{"inc r0", "dec r0", "inc r1", "add r0, r1", "cpy r1, r0", "nop", "clr r1", "mult r0, r1"})
+	}
+	var b strings.Builder
+	b.WriteString("%section tsec .romtext iomode:" + mode + "\n\tentry go\ngo:\n")
+	b.WriteString("\t" + pick(r, []string{"mov r0, {{.Params.first}}", "rset r0, {{.Params.first}}", "rset r1, {{.Params.first}}"}) + "\n")
+	b.WriteString("again:\n")
+	for n := 1 + r.Intn(3); n > 0; n-- {
+		b.WriteString("\t" + plainOp() + "\n")
+	}
+	b.WriteString("{{if .Params." + blockA + "}}\n")
+	for n := 1 + r.Intn(3); n > 0; n-- {
+		b.WriteString("\t" + plainOp() + "\n")
+	}
+	b.WriteString("{{end}}\n\tmov o0, r0\n")
+	useB := r.Bool()
+	if useB {
+		b.WriteString("{{if .Params." + blockB + "}}\n\t" + pick(r, []string{"mov {{.Params." + blockB + "}}, r0", "add r0, {{.Params." + blockB + "}}", "mov o0, {{.Params." + blockB + "}}"}) + "\n{{end}}\n")
+	}
+	b.WriteString("\t" + pick(r, []string{"j again", "jmp again", "jz r1, again\n\tj go"}) + "\n%endsection\n")
+	hasA := make([]bool, ncp)
+	for {
+		some, none := false, false
+		for i := range hasA {
+			hasA[i] = r.Bool()
+			some = some || hasA[i]
+			none = none || !hasA[i]
+		}
+		if some && none {
+			break
+		}
+	}
+	metas := []string{}
+	for i := 0; i < ncp; i++ {
+		keys := []string{"romcode:tsec", "first:" + genLiteral(r, rsize)}
+		if hasA[i] {
+			keys = append(keys, blockA+":"+pick(r, []string{"1", "yes", "0"}))
+		}
+		if useB && r.Bool() {
+			keys = append(keys, blockB+":"+pick(r, []string{"r1", "r0", "r2"}))
+		}
+		for k := len(keys) - 1; k > 0; k-- {
+			j := r.Intn(k + 1)
+			keys[k], keys[j] = keys[j], keys[k]
+		}
+		metas = append(metas, "%meta cpdef "+names[i]+" "+strings.Join(keys, ", "))
+	}
+	total := ncp
+	if r.Chance(1, 3) {
+		// one more processor on a plain section: with a parameter it gets a copy of it, without it runs it as it is
+		b.WriteString("%section plain1 .romtext iomode:" + mode + "\n\tentry p\np:\n\tinc r0\n\tmov o0, r0\n\tj p\n%endsection\n")
+		cp := "%meta cpdef " + names[ncp] + " romcode:plain1"
+		if r.Bool() {
+			cp += ", first:" + genLiteral(r, rsize)
+		}
+		metas = append(metas, cp)
+		total++
+	}
+	for i := len(metas) - 1; i > 0; i-- {
+		j := r.Intn(i + 1)
+		metas[i], metas[j] = metas[j], metas[i]
+	}
+	var o strings.Builder
+	o.WriteString("%meta bmdef global registersize:" + strconv.Itoa(rsize) + "\n")
+	metaFirst := r.Bool()
+	wr := func() {
+		for _, m := range metas {
+			o.WriteString(m + "\n")
+		}
+		for i := 0; i < total; i++ {
+			o.WriteString(ioattPair(r, fmt.Sprintf("out%d", i), names[i], "output", 0, i))
+		}
+	}
+	if metaFirst {
+		wr()
+	}
+	o.WriteString(b.String())
+	if !metaFirst {
+		wr()
+	}
+	c.Text = o.String()
+	return c
+}
+
 // GenCase generates one source: mostly well formed, sometimes malformed or with an unfit operand.
 func GenCase(r *common.Rng) Case {
+	if r.Chance(1, 8) {
+		return genTemplCase(r)
+	}
 	rsize := []int{8, 16, 32}[r.Intn(3)]
 	gmode := pick(r, []string{"", "async", "sync", "sync"})
 	ncp := []int{1, 1, 1, 2, 2, 3}[r.Intn(6)]
@@ -596,8 +715,22 @@ func GenExtCase(r *common.Rng) Case {
 	c := Case{}
 	mode := pick(r, []string{"async", "sync"})
 	rom := genSection(r, "romc", rsize, mode, mode)
-	// make sure the word is at least 8 bits wide (needed by data sections) and that a register is used
-	rom.lines = append(rom.lines, gline{text: "rset r0, " + genLiteral(r, rsize)})
+	// noLit: no immediate load anywhere, so that a jump (register + ROM address) is the widest instruction and the word
+	// width follows the ROM address width; the data section is then large (2^6 / 2^7 cells in a few lines)
+	noLit := r.Chance(1, 3)
+	if noLit {
+		for i := range rom.lines {
+			t := rom.lines[i].text
+			last := t[strings.LastIndex(t, " ")+1:]
+			if strings.HasPrefix(t, "rset ") || (strings.HasPrefix(t, "mov r") && last != "" && last[0] >= '0' && last[0] <= '9') {
+				rom.lines[i].text = "inc r0"
+			}
+		}
+		rom.lines = append(rom.lines, gline{text: "jz r0, " + rom.entryLabel}, gline{text: "j " + rom.entryLabel})
+	} else {
+		// make sure the word is at least 8 bits wide (needed by data sections) and that a register is used
+		rom.lines = append(rom.lines, gline{text: "rset r0, " + genLiteral(r, rsize)})
+	}
 	ncode := 0
 	for _, l := range rom.lines {
 		if !l.entry {
@@ -605,7 +738,11 @@ func GenExtCase(r *common.Rng) Case {
 		}
 	}
 	cp := "%meta cpdef cpu romcode:romc"
-	switch r.Intn(3) {
+	sel := r.Intn(3)
+	if noLit {
+		sel = 1
+	}
+	switch sel {
 	case 0:
 		c.Kind = "ext:hy"
 		ram := genSection(r, "ramc", rsize, mode, mode)
@@ -616,6 +753,10 @@ func GenExtCase(r *common.Rng) Case {
 	default:
 		c.Kind = "ext:romdata"
 		k := 2 + r.Intn(4)
+		if noLit {
+			c.Kind = "ext:romdata-jumpwidest"
+			k = 6 + r.Intn(2)
+		}
 		for (1<<uint(k))-1-ncode < 1 {
 			k++
 		}
@@ -637,7 +778,7 @@ func GenExtCase(r *common.Rng) Case {
 		}
 		b.WriteString("%endsection\n")
 		cp += ", romdata:datao"
-		if r.Bool() {
+		if !noLit && r.Bool() {
 			c.Kind = "ext:romdata+ramdata"
 			nr := []int{1, 3, 4, 5, 7, 8, 9}[r.Intn(7)]
 			rv := make([]string, nr)
@@ -954,8 +1095,17 @@ func GenDataCase(r *common.Rng) Case {
 		loopLabel = "loop"
 		cb.WriteString("loop:\n")
 	}
+	shared := "" // a code label with the name of a data variable: `rom:<name>` still denotes the variable
+	if r.Bool() {
+		shared = fmt.Sprintf("v%d", r.Intn(nv))
+	}
 	for n := 2 + r.Intn(3); n > 0; n-- {
 		name := fmt.Sprintf("v%d", r.Intn(nv))
+		if shared != "" && (r.Chance(1, 3) || n == 1) {
+			cb.WriteString(shared + ":\n")
+			name = shared
+			shared = ""
+		}
 		ins("mov r0, rom:" + name)
 		for k := r.Intn(minCells(name)); k > 0; k-- {
 			ins("inc r0")
@@ -1034,4 +1184,129 @@ func GenDataCase(r *common.Rng) Case {
 	}
 	c.Text = b.String()
 	return c
+}
+
+// ---- one source per high-level matcher pattern of every opcode ------------------------------------
+
+// OpcodeCases: for every opcode of procbuilder.Allopcodes and every pattern its HLAssemblerMatch offers, a source with
+// one instruction of that shape (operands chosen by the pattern's operand types), on a processor that has a ROM and a
+// RAM data section and one shared object of every kind attached.  Patterns with an operand type this synthesiser does
+// not know are returned in `skipped`.
+func OpcodeCases() (cases []Case, names []string, skipped []string) {
+	seen := map[string]bool{}
+	for _, op := range procbuilder.Allopcodes {
+		name := op.Op_get_name()
+		names = append(names, name)
+		var pats []string
+		func() {
+			defer func() { recover() }()
+			pats = op.HLAssemblerMatch(nil)
+		}()
+		for _, pat := range pats {
+			if seen[pat] {
+				continue
+			}
+			seen[pat] = true
+			parts := strings.Split(pat, "::")
+			head := strings.Split(parts[0], "--")
+			mnem := head[0]
+			mode := "async"
+			for _, kv := range head[1:] {
+				if kv == "iomode=sync" {
+					mode = "sync"
+				}
+			}
+			args := []string{}
+			ok := true
+			nreg := 0
+			for _, spec := range parts[1:] {
+				f := strings.Split(spec, "--")
+				meta := map[string]string{}
+				for _, kv := range f[1:] {
+					if i := strings.Index(kv, "="); i > 0 {
+						meta[kv[:i]] = kv[i+1:]
+					}
+				}
+				if f[0] != "*" {
+					args = append(args, f[0])
+					continue
+				}
+				switch meta["type"] {
+				case "reg":
+					args = append(args, "r"+strconv.Itoa(nreg))
+					nreg++
+				case "number":
+					args = append(args, "1")
+				case "input":
+					args = append(args, "i0")
+				case "output":
+					args = append(args, "o0")
+				case "rom":
+					switch meta["romaddressing"] {
+					case "register":
+						args = append(args, "rom:[r0]")
+					case "symbol":
+						args = append(args, "rom:dv")
+					default:
+						args = append(args, "rom:0")
+					}
+				case "ram":
+					switch meta["ramaddressing"] {
+					case "register":
+						args = append(args, "ram:[r0]")
+					case "symbol":
+						args = append(args, "ram:rv")
+					default:
+						args = append(args, "ram:0")
+					}
+				case "loc":
+					args = append(args, "[r0]")
+				case "symbol":
+					args = append(args, "s")
+				case "somov":
+					t := meta["sotype"]
+					switch meta["soaddressing"] {
+					case "immediate":
+						args = append(args, t+"0:3")
+					case "register":
+						args = append(args, t+"0:[r0]")
+					default:
+						args = append(args, t+"0")
+					}
+				default:
+					ok = false
+				}
+			}
+			if !ok {
+				skipped = append(skipped, pat)
+				continue
+			}
+			var b strings.Builder
+			b.WriteString("%meta bmdef global registersize:32\n")
+			// the immediate load makes the word wide enough for the data cells and gives the processor a register
+			b.WriteString("%section code1 .romtext iomode:" + mode + "\n\tentry s\ns:\n\trset r0, 1\n\t" + mnem)
+			if len(args) > 0 {
+				b.WriteString(" " + strings.Join(args, ", "))
+			}
+			b.WriteString("\n\tj s\n%endsection\n")
+			b.WriteString("%section dvs .romdata\n\tdv db 0x01, 0x02\n%endsection\n%section rvs .ramdata\n\trv db 0x03, 0x04\n%endsection\n")
+			for i, k := range soKinds {
+				fmt.Fprintf(&b, "%%meta sodef so%d constraint:%s\n", i, k.constraint)
+			}
+			if name == "ja" || name == "jcmpa" {
+				// jumps into the RAM: only meaningful on a processor that executes from RAM too
+				b.WriteString("%section ramc .ramtext iomode:" + mode + "\n\tentry t\nt:\n\trset r0, 2\n\tj t\n%endsection\n")
+				b.WriteString("%meta cpdef cpu romcode:code1, ramcode:ramc, romdata:dvs, ramdata:rvs, execmode:hy\n")
+			} else {
+				b.WriteString("%meta cpdef cpu romcode:code1, romdata:dvs, ramdata:rvs\n")
+			}
+			for i := range soKinds {
+				fmt.Fprintf(&b, "%%meta soatt so%d cp:cpu, index:%d\n", i, i)
+			}
+			b.WriteString("%meta ioatt in0 cp:bm, type:input, index:0\n%meta ioatt in0 cp:cpu, type:input, index:0\n")
+			b.WriteString("%meta ioatt out0 cp:cpu, type:output, index:0\n%meta ioatt out0 cp:bm, type:output, index:0\n")
+			cases = append(cases, Case{Kind: "ops:" + name, Text: b.String()})
+		}
+	}
+	return
 }
